@@ -139,8 +139,28 @@ def short(addr):
     return addr.replace('Sheet', 'S')
 
 
+def environment():
+    """Process-wide settings an evaluation has no business changing (the
+    next evaluation - of any model, by any evaluator - runs under them)."""
+    import decimal
+    import gc
+    import sys
+    import numpy
+    dc = decimal.getcontext()
+    return 'env:gc=%s numpy=%s recursion=%d decimal=%d/%s' % (
+        gc.isenabled(), sorted(numpy.geterr().items()),
+        sys.getrecursionlimit(), dc.prec, dc.rounding)
+
+
+def init_worker(tier):
+    # numpy warns about the overflows of the 'overflow' model on stderr
+    import warnings
+    warnings.simplefilter('ignore', RuntimeWarning)
+
+
 def run_seq(spec, seq, ctx):
     model = models.build(spec, lib)
+    env0 = environment()
     snap0 = snapshot(model)
     ev = lib.Evaluator(model)
     got = None
@@ -158,9 +178,23 @@ def run_seq(spec, seq, ctx):
                  nontriv)
     ctx.check(key + '#snapshot', snapshot(model), snap0,
               ['oracle:inputs-unchanged'], inputs, False)
+    env1 = environment()
+    if env1 != env0:
+        ctx.fail(key + '#environment', ['oracle:process-settings-unchanged'],
+                 inputs, env0, env1, True)
+        restore_environment()
     ctx.count('transitions')
     ctx.count('states')
     lib.clear_caches()
+
+
+def restore_environment():
+    """(harness) undo what a mutated library left behind, so that one leak
+    is one report and not one per later schedule"""
+    import gc
+    import numpy
+    gc.enable()
+    numpy.seterr(divide='warn', over='warn', under='ignore', invalid='warn')
 
 
 def run_multi(spec, seq, ctx):
@@ -245,6 +279,60 @@ def run_handover(spec, ctx):
                         ctx.count('transitions')
                     ctx.count('states')
                     lib.clear_caches()
+
+
+def run_deepfail(ctx):
+    """An evaluation that fails because the chain of cells is deeper than the
+    interpreter's stack (with and without a cycle) is an evaluation like any
+    other: what the model and later evaluations - by this or another
+    evaluator - yield does not depend on it."""
+    import sys
+    old = sys.getrecursionlimit()
+    sys.setrecursionlimit(1000)            # the interpreter's default
+    try:
+        for closing in ('acyclic', 'cycle'):
+            cells = {'Sheet1!E1': 1, 'Sheet1!F1': 2, 'Sheet1!E2': 3,
+                     'Sheet1!F2': 4, 'Sheet1!G1': '=SUM(E1:F2)',
+                     'Sheet1!G2': '=COUNT(E1:F2)', 'Sheet1!G3': '=E2*10'}
+            n = 400
+            for i in range(1, n):
+                cells['Sheet1!C%d' % i] = '=C%d+1' % (i + 1)
+            cells['Sheet1!C%d' % n] = '=SUM(E1:F2)+%s' % (
+                'C1' if closing == 'cycle' else '0')
+            want = {'Sheet1!G1': 'num:10.0', 'Sheet1!G2': 'num:4.0',
+                    'Sheet1!G3': 'num:30.0'}
+            probes = sorted(want)
+            for seq in (['D'], ['D', 'D'], ['G', 'D'], ['D', 'G', 'D']):
+                model = lib.compile_dict(cells)
+                snap0 = snapshot(model)
+                ev = lib.Evaluator(model)
+                for step in seq:
+                    if step == 'D':
+                        o = lib.observe(ev.evaluate, 'Sheet1!C1')
+                        if not o.startswith('raise:'):
+                            ctx.skip('deep-chain-evaluates-here')
+                    else:
+                        lib.observe(ev.evaluate, 'Sheet1!G1')
+                key0 = 'C05/deepfail/%s/%s' % (closing, ''.join(seq))
+                inputs = {'kind': 'deepfail', 'model': 'chain'}
+                tags = ['family:deep-failure', 'closing:' + closing]
+                for which, e in (('same', ev), ('new', lib.Evaluator(model))):
+                    for a in probes:
+                        ctx.check('%s/%s/%s' % (key0, which, a[-2:]),
+                                  lib.observe(e.evaluate, a), want[a],
+                                  tags + ['evaluator:' + which], inputs, True)
+                ctx.check(key0 + '/snapshot', snapshot(model), snap0,
+                          tags + ['oracle:inputs-unchanged'], inputs, False)
+                ctx.check(key0 + '/ranges', repr(sorted(
+                    (k, v.cells) for k, v in model.ranges.items())), repr(
+                    [('Sheet1!E1:F2', [['Sheet1!E1', 'Sheet1!F1'],
+                                       ['Sheet1!E2', 'Sheet1!F2']])]),
+                    tags + ['oracle:ranges-unchanged'], inputs, False)
+                ctx.count('transitions')
+                ctx.count('states')
+                lib.clear_caches()
+    finally:
+        sys.setrecursionlimit(old)
 
 
 HEAP_SCHEDULES = ('round-robin', 'single-cell', 'two-evaluators',
@@ -382,7 +470,7 @@ def run_procs(spec, ctx):
 
 
 def plan(tier):
-    shards = []
+    shards = [{'model': 'chain', 'kind': 'deepfail', 'weight': 5}]
     for f in models.ALL_C05:
         spec = f()
         cells = spec.eval_cells
@@ -412,7 +500,9 @@ def plan(tier):
 def run_shard(shard, ctx):
     spec = models.by_name(shard['model'])
     cells = spec.eval_cells
-    if shard['kind'] == 'procs':
+    if shard['kind'] == 'deepfail':
+        run_deepfail(ctx)
+    elif shard['kind'] == 'procs':
         run_procs(spec, ctx)
     elif shard['kind'] == 'handover':
         run_handover(spec, ctx)
@@ -433,7 +523,9 @@ def run_shard(shard, ctx):
 
 def replay(inputs, ctx):
     spec = models.by_name(inputs['model'])
-    if inputs['kind'] == 'procs':
+    if inputs['kind'] == 'deepfail':
+        run_deepfail(ctx)
+    elif inputs['kind'] == 'procs':
         run_procs(spec, ctx)
     elif inputs['kind'] == 'handover':
         run_handover(spec, ctx)
